@@ -140,13 +140,24 @@ def sym_float(*a):
     return float(*a)
 
 
+def _diag(fn, *a, **k):
+    """str()/format()/repr() of an object whose own __str__/__repr__ yields symbolic text: CPython insists on a real str, so
+    the result is a tainted placeholder (only fit for diagnostics; any semantic use of it traps)"""
+    try:
+        return fn(*a, **k)
+    except TypeError as e:
+        if "non-string" in str(e) or "must return a str" in str(e):
+            return symx.TaintedStr("\u27e6text with symbolic parts\u27e7")
+        raise
+
+
 def sym_str(*a, **k):
     if len(a) == 1 and not k:
         for h in STR_HANDLERS:
             r = h(a[0])
             if r is not NotImplemented:
                 return r
-    return str(*a, **k)
+    return _diag(str, *a, **k)
 
 
 FORMAT_HANDLERS = []
@@ -157,7 +168,7 @@ def sym_format(v, spec=""):
         r = h(v, spec)
         if r is not NotImplemented:
             return r
-    return format(v, spec)
+    return _diag(format, v, spec)
 
 
 JOIN = [None]
@@ -194,6 +205,8 @@ def _dispatch(name, orig):
             r = h(*a, **k)
             if r is not NotImplemented:
                 return r
+        if name == "repr":
+            return _diag(orig, *a, **k)
         return orig(*a, **k)
 
     f.__name__ = f"__symx_{name}__"
